@@ -157,7 +157,9 @@ def run(args):
     res = run_pool([build.obs], [{"mode": "parse", "stmt": t} for t in texts], NCPU, timeout=90)
 
     def outcome(parts, r):
-        if "panic" in r or "exit" in r or "timeout" in r:
+        if "timeout" in r:
+            return "slow", None          # no answer within the pool's limit (load): termination is C10's business
+        if "panic" in r or "exit" in r:
             return "crash", None
         if r.get("err") != "NO_ERROR_DURING_PARSING":
             return "rejected:" + str(r.get("err")), None
@@ -179,7 +181,7 @@ def run(args):
         oc, detail = outcome(parts, r)
         dist["outcome"][oc] = dist["outcome"].get(oc, 0) + 1
         nontrivial += 1 if d >= 1 else 0
-        if oc == "ok":
+        if oc in ("ok", "slow"):
             continue
         small = parts
         if member_contains_nesting(parts):
